@@ -419,13 +419,18 @@ func genSynth(prog *Program, p *Pkg) (string, error) {
 			sort.Ints(lns)
 			for _, n := range lns {
 				if n >= len(loops) {
-					return "", &DriftError{Func: p.Path + "." + c.Name, Msg: fmt.Sprintf("loop %d not found (function has %d loops)", n, len(loops))}
+					for _, cl := range c.Loops[n] {
+						cl.Unbound = fmt.Sprintf("loop %d not found (function has %d loops)", n, len(loops))
+					}
+					continue
 				}
 				loop := loops[n]
 				for _, cl := range c.Loops[n] {
 					lps, lnames, err := g.freeLocals(cl.GoExpr, loop, fd)
 					if err != nil {
-						return "", &DriftError{Func: p.Path + "." + c.Name, Msg: err.Error()}
+						// the clause no longer binds to the code (contract drift): reported as a failed obligation
+						cl.Unbound = err.Error()
+						continue
 					}
 					g.n++
 					cl.GoFn = fmt.Sprintf("V_c_%d", g.n)
@@ -452,6 +457,39 @@ func genSynth(prog *Program, p *Pkg) (string, error) {
 	}
 	out.WriteString(bs)
 	return out.String(), nil
+}
+
+func (g *synthGen) knownSpecName(n string) bool {
+	if strings.HasPrefix(n, "V_") {
+		return true
+	}
+	for _, sf := range g.p.Spec {
+		for _, f := range sf.Funcs {
+			if f.Name == n {
+				return true
+			}
+		}
+		for _, gh := range sf.Ghosts {
+			if gh[0] == n {
+				return true
+			}
+		}
+	}
+	for _, a := range g.imports {
+		if a == n {
+			return true
+		}
+	}
+	return false
+}
+
+func isParamOf(p *Pkg, fd *ast.FuncDecl, v *types.Var) bool {
+	for _, o := range paramDeclObjs(p, fd) {
+		if o == v {
+			return true
+		}
+	}
+	return false
 }
 
 type DriftError struct {
@@ -534,8 +572,22 @@ func (g *synthGen) freeLocals(goExpr string, loop ast.Stmt, fd *ast.FuncDecl) (p
 				}
 			}
 			_, obj := scope.LookupParent(x.Name, bodyPos)
+			if obj == nil && !g.knownSpecName(x.Name) && !strings.HasSuffix(x.Name, "0") {
+				err = fmt.Errorf("identifier %s of the invariant does not resolve at the loop", x.Name)
+				return
+			}
+			if obj == nil && strings.HasSuffix(x.Name, "0") {
+				// entry value of a parameter: <param>0
+				if _, po := scope.LookupParent(strings.TrimSuffix(x.Name, "0"), bodyPos); po != nil {
+					if pv, ok := po.(*types.Var); ok && isParamOf(g.p, fd, pv) {
+						seen[x.Name] = true
+						params = append(params, x.Name+" "+g.typeStr(pv.Type()))
+						names = append(names, x.Name)
+						return
+					}
+				}
+			}
 			if obj == nil {
-				// also look inside the body scope start (range vars are in loop scope)
 				return
 			}
 			v, ok := obj.(*types.Var)
